@@ -9,7 +9,7 @@ RUN_MODULE = "Run.Run_C16"
 GEN_FILES = ["Gen_types.v"]
 RULE = ("random lint-clean DAGs (1-4 inputs, 1-7 gates, constants 0/1/x, optionally a flip-flop blackbox) with 0-4 dead-logic edits: "
         "output marks dropped, dead gates / dead chains on arbitrary nodes (sharing fan-in with live logic), inputs with no load, inputs "
-        "loaded only by dead logic, unloaded constants, a flop whose Q buffer is dead, occasionally a combinational cycle; node order "
+        "loaded only by dead logic, inputs / gates / constants that carry the output mark and feed only dead logic, unloaded constants, a flop whose Q buffer is dead, occasionally a combinational cycle; node order "
         "shuffled; both values of `inputs`; the call is applied twice; non-trivial = at least one node removed or at least one dead-logic "
         "edit; distinct = canonical input hash")
 EXPLANATION = ("worklist model (orders explicit) proved to remove exactly the non-live removable nodes, keep survivors, be idempotent; "
@@ -34,7 +34,8 @@ def drivers(nodes):
 def edit(rng, d, names):
     nodes = d["nodes"]
     kind = rng.choice(["unmark", "unmark", "dead_gate", "dead_gate", "dead_chain", "unloaded_input", "dead_only_input",
-                       "dead_const", "dead_flop_q", "dead_tree", "unloaded_bbout"])
+                       "dead_const", "dead_flop_q", "dead_tree", "unloaded_bbout", "out_input_dead_load", "out_input_dead_load",
+                       "out_gate_dead_load"])
     if kind == "unmark":
         outs = [n for n in nodes if n[2]]
         for n in rng.sample(outs, min(len(outs), rng.randint(1, 2))):
@@ -81,6 +82,23 @@ def edit(rng, d, names):
             d["bbs"].append([inst, "ff", ["clk", "d"], ["q"]])
             if rng.random() < 0.4:
                 nodes.append([fresh(names, "dg"), "not", False, [q]])
+    elif kind == "out_input_dead_load":
+        # a pass-through port: an input that is itself an output and whose only loads are dead logic
+        i = fresh(names, "po")
+        nodes.append([i, "input", True, []])
+        prev = i
+        for _ in range(rng.randint(1, 2)):
+            nm = fresh(names, "dg")
+            nodes.append([nm, rng.choice(lib.SINGLE), False, [prev]])
+            prev = nm
+        if rng.random() < 0.3:
+            nodes.append([fresh(names, "dg"), rng.choice(lib.MULTI), False, sorted({i, rng.choice(drivers(nodes))})])
+    elif kind == "out_gate_dead_load":
+        # a gate (or an existing input) gets the output mark and additionally feeds dead logic only through a new dead gate
+        cand = [n for n in nodes if n[1] not in ("bb_input", "bb_output")]
+        g = rng.choice(cand)
+        g[2] = True
+        nodes.append([fresh(names, "dg"), rng.choice(lib.SINGLE), False, [g[0]]])
     elif kind == "unloaded_bbout":
         # a blackbox whose output pin has no load at all (never connected)
         inst = fresh(names, "ub")
@@ -143,6 +161,9 @@ def handmade():
         "single_input": [["a", "input", False, []]],
         "single_output_input": [["a", "input", True, []]],
         "dead_const": base + [["k", "1", False, []], ["d", "xor", False, ["k", "a"]]],
+        "output_input_loaded_only_by_dead": base + [["thru", "input", True, []], ["d", "not", False, ["thru"]], ["tap", "input", True, []]],
+        "output_gate_loaded_only_by_dead": [["a", "input", False, []], ["g", "not", True, ["a"]], ["d", "buf", False, ["g"]]],
+        "output_const_loaded_only_by_dead": base + [["k", "0", True, []], ["d", "not", False, ["k"]]],
         "diamond_dead": base + [["p", "not", False, ["a"]], ["q", "buf", False, ["a"]], ["r", "nand", False, ["p", "q"]]],
     }
     for name, nodes in shapes.items():
